@@ -243,7 +243,7 @@ def shard(ctx):
     rec = ctx.rec
     monitors.install_contracts()
     wrap_merge()
-    n = ctx.scale(4000, 150000)
+    n = ctx.scale(8000, 150000)
     seen = {}
     i = 0
     while i < n and not rec.expired():
